@@ -246,6 +246,22 @@ func c09R3(c *Ctx) {
 				return
 			}
 			r := p.Render(call.Call.Args[1])
+			if !strings.Contains(r, "(*lang.Evaluator).evalExpr(e, exprs[i@exprs])#0") {
+				return
+			}
+			// `item := v; if copy { item = copy of v }; append(list, item)`: the evaluated cell itself arrives on
+			// one edge of the merged value — that edge must carry copy == false
+			if elemPhi := appendedPhi(call); elemPhi != nil {
+				for i, e := range elemPhi.Edges {
+					if !strings.HasSuffix(p.Render(e), "(*lang.Evaluator).evalExpr(e, exprs[i@exprs])#0") {
+						continue
+					}
+					nRaw++
+					known, val := FactsOf(el).OnEdge(elemPhi.Block().Preds[i], elemPhi.Block()).Truth(el.Params[2])
+					c.check(known && !val, "R3", "copy-flag-complete", p.InstrPos(call), "the evaluated cell itself is listed only when copy is false", "evalExprList puts the evaluated cell itself into the list on a path where copy is true (the copy is skipped for some kinds of expression): `[a[0]]`, `[n = 1]` or `f(o.k)` then share a cell with their source")
+				}
+				return
+			}
 			if !strings.Contains(r, "(*lang.Evaluator).evalExpr(e, exprs[i@exprs])#0]") {
 				return
 			}
@@ -405,30 +421,45 @@ func memberResolutionOrder(c *Ctx, rule string) {
 		return
 	}
 	ms := p.maySetOf(gm, "v.Tag", valueTagNames(p))
-	F := FactsOf(gm)
 	n := 0
+	// the object arm sits in GetMember or in a helper split off it that GetMember calls under that tag
+	type armFn struct {
+		fn   *ssa.Function
+		tags func(b *ssa.BasicBlock) []string
+	}
+	arms := []armFn{{gm, func(b *ssa.BasicBlock) []string { return ms.At(b) }}}
 	for _, call := range callsIn(gm) {
-		if !staticCalleeIs(call, "(*lang.Value).protoMember") {
-			continue
+		h := call.Common().StaticCallee()
+		if h != nil && h != gm && p.inClusterOf(gm, h) {
+			at := ms.At(call.Block())
+			arms = append(arms, armFn{h, func(*ssa.BasicBlock) []string { return at }})
 		}
-		tags := ms.At(call.Block())
-		if !(len(tags) == 1 && tags[0] == "ValueObj") {
-			continue
-		}
-		n++
-		absent := false
-		for f := range F.At(call.Block()) {
-			ex, ok := f.cond.(*ssa.Extract)
-			if !ok || ex.Index != 1 || f.truth {
+	}
+	for _, arm := range arms {
+		F := FactsOf(arm.fn)
+		for _, call := range callsIn(arm.fn) {
+			if !staticCalleeIs(call, "(*lang.Value).protoMember") {
 				continue
 			}
-			if lk, ok := ex.Tuple.(*ssa.Lookup); ok && lk.CommaOk {
-				if _, isMap := lk.X.Type().Underlying().(*types.Map); isMap && strings.Contains(p.RenderShort(lk.X), "v.Obj") {
-					absent = true
+			tags := arm.tags(call.Block())
+			if !(len(tags) == 1 && tags[0] == "ValueObj") {
+				continue
+			}
+			n++
+			absent := false
+			for f := range F.At(call.Block()) {
+				ex, ok := f.cond.(*ssa.Extract)
+				if !ok || ex.Index != 1 || f.truth {
+					continue
+				}
+				if lk, ok := ex.Tuple.(*ssa.Lookup); ok && lk.CommaOk {
+					if _, isMap := lk.X.Type().Underlying().(*types.Map); isMap && strings.Contains(p.RenderShort(lk.X), "v.Obj") {
+						absent = true
+					}
 				}
 			}
+			c.check(absent, rule, fmt.Sprintf("object-own-key-first #%d", n), p.InstrPos(call), "the prototype is consulted only when the key is absent", "in the object arm of GetMember the prototype lookup is not confined to the `key absent` edge of the object's own lookup: a method name shadows an own member of the same name, so assignments to that member are lost")
 		}
-		c.check(absent, rule, fmt.Sprintf("object-own-key-first #%d", n), p.InstrPos(call), "the prototype is consulted only when the key is absent", "in the object arm of GetMember the prototype lookup is not confined to the `key absent` edge of the object's own lookup: a method name shadows an own member of the same name, so assignments to that member are lost")
 	}
 	if n == 0 {
 		c.undecided(rule, "object-own-key-first", p.Pos(gm.Pos()), "no prototype lookup found in the object arm of GetMember")
@@ -490,4 +521,28 @@ func payloadImmutable(c *Ctx, rule string) {
 	} else {
 		c.ok(rule, "payload-stores", "", fmt.Sprintf("%d scalar stores, all into fresh allocations", n))
 	}
+}
+
+// appendedPhi: the single element of `append(list, x)` when x is a merged value (phi).
+func appendedPhi(call *ssa.Call) *ssa.Phi {
+	sl, ok := call.Call.Args[1].(*ssa.Slice)
+	if !ok {
+		return nil
+	}
+	arr, ok := sl.X.(*ssa.Alloc)
+	if !ok {
+		return nil
+	}
+	for _, r := range referrersOf(arr) {
+		if ia, ok := r.(*ssa.IndexAddr); ok {
+			for _, rr := range referrersOf(ia) {
+				if st, ok := rr.(*ssa.Store); ok && st.Addr == ssa.Value(ia) {
+					if ph, ok := st.Val.(*ssa.Phi); ok {
+						return ph
+					}
+				}
+			}
+		}
+	}
+	return nil
 }
